@@ -145,10 +145,10 @@ def kernel_histories(repo: Repo, fis, binned: bool = False, cross: bool = True):
 
     fresh_cache: dict = {}
 
-    def fresh(fi, cfg_key, cfg):
-        if (fi.fq, cfg_key) not in fresh_cache:
-            fresh_cache[(fi.fq, cfg_key)] = observe(run_history(repo, [(fi, cfg[0], cfg[1], "'")], binned, keep_table=True))
-        return fresh_cache[(fi.fq, cfg_key)]
+    def fresh(fi, cfg_key, cfg, suffix="'"):
+        if (fi.fq, cfg_key, suffix) not in fresh_cache:
+            fresh_cache[(fi.fq, cfg_key, suffix)] = observe(run_history(repo, [(fi, cfg[0], cfg[1], suffix)], binned, keep_table=True))
+        return fresh_cache[(fi.fq, cfg_key, suffix)]
 
     problems: dict = {}
     n = 0
@@ -164,12 +164,17 @@ def kernel_histories(repo: Repo, fis, binned: bool = False, cross: bool = True):
             histories.append((fb, ca, fb, cb))
     for fb in fis:
         histories.append((fb, (0, False), fb, (0, False), 'same objects, updated in place'))
+        histories.append((fb, (0, False), fb, (0, False), 'new objects holding the same values'))
     for fa, ca, fb, cb, *how in histories:
         first, second = config(fa, *ca), config(fb, *cb)
-        want = fresh(fb, cb, second)
-        got = observe(run_history(repo, [(fa, first[0], first[1], ''), (fb, second[0], second[1], "'", *how)], binned, keep_table=True))
+        sfx = '' if how == ['new objects holding the same values'] else "'"
+        want = fresh(fb, cb, second, sfx)
+        got = observe(run_history(repo, [(fa, first[0], first[1], ''), (fb, second[0], second[1], sfx, *how)], binned, keep_table=True))
         n += 1
-        if got != want:
+        # (with the same values again the decisions of the first call hold in the second: the second call shows those outcomes of a
+        # fresh interpreter that are consistent with the first call having returned)
+        same = got <= want and bool(got) if sfx == '' else got == want
+        if not same:
             problems.setdefault(fb.fq, []).append({
                 'history': [f'{fa.qualname}(units {ca[0] + 1}{", float32 data" if ca[1] else ""})',
                             f'{fb.qualname}(units {cb[0] + 1}{", float32 data" if cb[1] else ""}' + (f'; {how[0]}' if how else '') + ')'],
